@@ -17,8 +17,8 @@ import (
 func TestVerifC18(t *testing.T) {
 	logx.Disable()
 	// the clock the jwt library validates exp/nbf/iat against is the harness's
+	// (set once, before any goroutine that reads it exists; never reset)
 	jwt.TimeFunc = func() time.Time { return time.Unix(jwtNow.Load(), 0) }
-	defer func() { jwt.TimeFunc = time.Now }()
 	if err := setupKeys(); err != nil {
 		t.Fatalf("cannot generate RSA keys: %v", err)
 	}
